@@ -53,11 +53,14 @@ func WithTimeout(p Context, d time.Duration) (Context, CancelFunc) {
 	fired := false
 	done := false
 	c := &dctx{Context: inner, fired: &fired, deadline: time.Unix(0, s.Now+int64(d))}
-	env := vsched.AddEnv("deadline:"+vsched.Site(), -1, func() bool { return !done && inner.Err() == nil }, func() {
+	created := s.Now
+	env := vsched.AddTimedEnv("deadline:"+vsched.Site(), -1, func() bool { return !done && inner.Err() == nil }, func() {
 		fired = true
-		s.Now += int64(d)
+		if !s.Timed {
+			s.Now += int64(d)
+		}
 		cancel()
-	})
+	}, func() int64 { return created + int64(d) })
 	return c, func() {
 		done = true
 		vsched.RemoveEnv(env)
